@@ -23,5 +23,7 @@ func TestWorker(t *testing.T) {
 		"C11": checkC11,
 		"C12": checkC12,
 		"C44": checkC44,
+		"C39": checkC39,
+		"C41": checkC41,
 	})
 }
